@@ -23,7 +23,7 @@ from ..seams import stepclock
 LABELS = ["a", "b", "c", "d", "e", "A", "B", "x", "y", "Cc", "cc", "Gie\u00dfen", "gie\u00dfen"]   # the last two: lower() and casefold() disagree
 
 OPS = ["append", "append", "append_locked", "insert", "extend_list", "extend_treelist", "iadd", "add", "setitem", "setslice_list", "setslice_treelist",
-       "read_data", "read_path", "read_file", "new_tree", "new_tree_seed_node", "new_tree_from_tree", "pop", "remove", "delitem", "construct", "migrate", "reconstruct",
+       "read_data", "read_path", "read_file", "read_torn", "ta_migrate", "new_tree", "new_tree_seed_node", "new_tree_from_tree", "pop", "remove", "delitem", "construct", "migrate", "reconstruct",
        "update_ns", "getslice", "ta_add_foreign", "ta_add", "ta_merge_foreign", "ta_merge_foreign", "new_tree_foreign_ns",
        "m_new_sequence", "m_setitem", "m_setitem_foreign", "m_migrate", "m_reconstruct", "m_from_dict",
        "ds_add_list", "ds_add_matrix", "ds_new_tree_list", "ds_new_char_matrix", "ds_read", "ds_attach", "ds_unify", "ds_detach"]
@@ -317,6 +317,41 @@ class C11(Machine):
                 raise StopRun()
             self._label_rule(rec, op, list(zip(leaves, want)), L.taxon_namespace)
             return "imported"
+        if op == "read_torn":
+            # fault: the source was cut off by an interrupted write; the read fails and the list must be as it was
+            import random
+            r = random.Random(st["tseed"])
+            labs = _distinct(st["labels"], L.taxon_namespace.is_case_sensitive)
+            text = "".join(gen.spec_to_newick(gen.tree_spec(r, labs, st["shape"], "int")) + "\n" for _ in range(3))
+            cut = max(2, (st["i"] * 7 + st["j"]) % (len(text) - 2))
+            torn = text[:cut]
+            n0 = len(L)
+            before = list(L._trees)
+            rec.fault("torn_source")
+            try:
+                L.read(data=torn, schema="newick", case_sensitive_taxon_labels=L.taxon_namespace.is_case_sensitive)
+            except Exception:
+                if len(L) != n0 or any(a is not b for a, b in zip(L._trees, before)):
+                    rec.violation("CLOSURE", {"op": op, "what": "failed_read_changed_list"},
+                                  "a read that failed left %d trees in a list that held %d" % (len(L), n0))
+                    raise StopRun()
+                return "refused"
+            return "imported"       # the cut fell between two statements: a shorter, valid source
+        if op == "ta_migrate":
+            other = self.nss[(st["ns"] + 1) % 3]
+            if other is self.ta.taxon_namespace:
+                return "skip"
+            rec.fault("declared_invalid_operation")
+            ns0 = self.ta.taxon_namespace
+            try:
+                self.ta.migrate_taxon_namespace(other)
+            except NotImplementedError:
+                if self.ta.taxon_namespace is not ns0:
+                    rec.violation("CLOSURE", {"op": op, "what": "refused_but_changed"},
+                                  "TreeArray.migrate_taxon_namespace raised NotImplementedError but left the array on the other namespace")
+                    raise StopRun()
+                return "refused"
+            return "ok"
         if op == "new_tree":
             L.new_tree()
             return "ok"
